@@ -206,12 +206,12 @@ Qed.
 
 (** over histories *)
 Theorem reachable_graph_acyclic fuel cells refs maxd ops xs st :
-  defs_ok cells -> refn_ok (init cells refs maxd) -> ops_ok2 fuel (init cells refs maxd) ops ->
+  refn_ok (init cells refs maxd) -> ops_ok2 fuel (init cells refs maxd) ops ->
   run fuel (init cells refs maxd) ops = (xs, st) -> no_fuel_out xs -> s_reent st = false ->
   forall a b, In (a, b) (s_edges st) -> ~ path (s_edges st) b a.
 Proof.
-  intros Hok Hrn Hops Hrun Hnf Hre.
-  destruct (run_Exa _ _ _ _ _ Hrun Hnf (Quiet_init cells refs maxd Hok) Hrn eq_refl Hops (Exa_init cells refs maxd))
+  intros Hrn Hops Hrun Hnf Hre.
+  destruct (run_Exa _ _ _ _ _ Hrun Hnf (Quiet_init cells refs maxd) Hrn eq_refl Hops (Exa_init cells refs maxd))
     as [R|(Q & _ & X)]; [congruence|].
   now apply acyclic.
 Qed.
